@@ -22,8 +22,16 @@ class Elem(Ext):
     """an lxml element built by E(tag, *children, **attrs)"""
 
     def __init__(self, tag, children, attrs):
-        self.tag, self.children, self.attrs = tag, list(children), dict(attrs)
+        self.tag, self.children, self.attrs = tag, [], dict(attrs)
         self.attrib = AttribView(self)
+        self.parent = None
+        # lxml: an element has ONE parent -- appending an element that already sits in another element MOVES it there
+        for c in children:
+            if isinstance(c, Elem):
+                if c.parent is not None:
+                    c.parent.children = [x for x in c.parent.children if x is not c]
+                c.parent = self
+            self.children.append(c)
 
     def sym_getattr(self, eng, name):
         if name == "attrib":
@@ -156,7 +164,7 @@ def h_equation_and_containers(eng):
         eng.prove("function.is_apply_of_arguments_in_order", z3.And(z3.BoolVal(el.tag == "apply" and children_ok(el, ks) and set(el.attrs) == {"builtin"}),
                                                                     ops.to_z3(el.attrs.get("builtin", "")) == name))
     elif which == "class":
-        ns, ne = eng.choice(3), eng.choice(3)
+        ns, ne = eng.choice(4), eng.choice(7)
         syms = [VObj(VClass("Symbol"), {"name": "s%d" % i}) for i in range(ns)]
         eqs = [VObj(VClass("Equation"), {}) for i in range(ne)]
         ks = [kid(s, "sym%d" % i) for i, s in enumerate(syms)]
@@ -202,6 +210,53 @@ def h_equation_and_containers(eng):
     eng.cover("xml." + which)
 
 
+def h_declaration_equation(eng):
+    """A declaration equation (Real v = 3 * x) reaches the generator as Equation(left=<the Symbol object v>, right=...): flattening puts
+    the symbol itself on the left-hand side.  The callbacks that meet on it -- exitSymbol (the component), exitEquation, exitClass --
+    are run in the walker's order on one class; the result must hold one component per variable AND an <equal> with both sides."""
+    g, A = setup(eng)
+    from contracts.C10 import PrefixList
+
+    class P(PrefixList):
+        def __init__(self, eng):
+            self.label, self.has, self.appended = "sym", {k: False for k in VARIABILITY}, []
+    xml = g.fields["xml"]
+    lhs_is_symbol = bool(eng.choice(2))
+    eng.input("left_hand_side", "the Symbol object (declaration equation)" if lhs_is_symbol else "a ComponentRef")
+    syms = []
+    for n in ("x", "v"):
+        sy = VObj(VClass("Symbol"), {"name": n, "prefixes": P(eng), "type": VObj(VClass("ComponentRef"), {"name": "Real"})})
+        sy.cls.bases = []
+        for f in ("start", "value", "fixed"):
+            sy.fields[f] = A.prim(None)
+        syms.append(sy)
+    sym_cls = eng.module_global(eng.load_module("pymoca.ast"), "Symbol")
+    for sy in syms:
+        sy.cls = sym_cls
+    rhs = A.ref("x")
+    eng.call(VBound(eng.find_function(MOD, "XmlGenerator.exitComponentRef"), g), [rhs], {})
+    left = syms[1] if lhs_is_symbol else A.ref("v")
+    if not lhs_is_symbol:
+        eng.call(VBound(eng.find_function(MOD, "XmlGenerator.exitComponentRef"), g), [left], {})
+    for sy in syms:
+        eng.call(VBound(eng.find_function(MOD, "XmlGenerator.exitSymbol"), g), [sy], {})
+    eq = A.new("Equation", left=left, right=rhs)
+    eng.call(VBound(eng.find_function(MOD, "XmlGenerator.exitEquation"), g), [eq], {})
+    cls = VObj(VClass("Class"), {"name": "M", "symbols": VDict([(sy.fields["name"], sy) for sy in syms]), "equations": VList([eq])})
+    eng.call(VBound(eng.find_function(MOD, "XmlGenerator.exitClass"), g), [cls], {})
+    eng.cover("xml.declaration_equation")
+    el = ops.getitem(eng, xml, cls)
+    c = el.children[0] if el.children else None
+    comps = [k for k in (c.children if c is not None else []) if isinstance(k, Elem) and k.tag == "component"]
+    eng.prove("decleq.one_component_per_variable", z3.BoolVal([k.attrs.get("name") for k in comps] == ["x", "v"]))
+    eqs = [k for k in (c.children if c is not None else []) if isinstance(k, Elem) and k.tag == "equation"]
+    equal = eqs[0].children[0] if len(eqs) == 1 and len(eqs[0].children) == 1 else None
+    ok = equal is not None and equal.tag == "equal" and len(equal.children) == 2
+    ok = ok and equal.children[0].tag == "local" and equal.children[0].attrs.get("name") == "v" and equal.children[1].tag == "local" and equal.children[1].attrs.get("name") == "x"
+    eng.prove("decleq.equal_has_the_variable_on_the_left_and_the_value_on_the_right", z3.BoolVal(bool(ok)),
+              equal=[getattr(k, "tag", "?") for k in (equal.children if equal is not None else [])])
+
+
 VARIABILITY = ["discrete", "continuous", "parameter", "constant"]
 
 
@@ -219,8 +274,9 @@ def h_symbol(eng):
     typ = eng.input("type", eng.fresh_str("type"))
     vals = {}
     for f in ("start", "value"):
-        choice = [None] + LITERALS[:6]
-        vals[f] = choice[eng.choice(3) if f == "value" else eng.choice(len(choice))]
+        # literal values incl. the falsy ones (0, 0.0, Boolean false): only "not set" (None) may be left out
+        choice = [None, 2.5, 0, 0.0, False, True, -3, 1e-08, 1.25e-06]
+        vals[f] = choice[eng.choice(len(choice))]
     vals["fixed"] = [None, True, False][eng.choice(3)]
     eng.input("attributes", dict(vals))
     sym = VObj(VClass("Symbol"), {"name": name, "prefixes": p, "type": VObj(VClass("ComponentRef"), {"name": typ})})
@@ -275,9 +331,9 @@ def _same_number(txt, v):
 
 HARNESSES = [("XmlGenerator.exitExpression", h_expression), ("XmlGenerator.exitPrimary/exitComponentRef", h_leaves),
              ("XmlGenerator.exitEquation/Function/Class/Tree/WhenEquation/ClassModification", h_equation_and_containers),
-             ("XmlGenerator.exitSymbol", h_symbol)]
+             ("XmlGenerator.exitSymbol", h_symbol), ("XmlGenerator: declaration equation (exitSymbol + exitEquation + exitClass)", h_declaration_equation)]
 EXPECTED_COVER = {"xml.expression", "xml.primary", "xml.ref", "xml.symbol", "xml.equation", "xml.function", "xml.class", "xml.tree",
-                  "xml.when", "xml.classmod"}
+                  "xml.when", "xml.classmod", "xml.declaration_equation"}
 BOUNDED = True
 LEVEL = "proof"
 TRUSTED = ["pyvc VC generator", "z3 5.1.0", "lxml: objectify.E(tag, *children, **attrs) builds an element with those children in order and those attributes; etree.tostring emits well-formed text",
